@@ -9,23 +9,15 @@ WITNESS = '/verif/witness/macros.c'
 
 
 def check_cache(P, ctx):
+    """The method cache is transparent: for every class, whatever earlier lookups left in the cache words of the type record, the
+    dispatcher answers what the scan answers.  Type_Instance is evaluated (cint) over the record's cache words as integer memory, with
+    Type_Scan answering a distinct token per class: (A) empty cache — the answer is the scan's, and at most one word is written, a cache
+    word of this configuration, holding that answer; (B) every cached class filled in by (A) — every class still gets its own answer;
+    (C) all but the queried class filled — likewise; a class without a cache entry is answered by the scan and writes nothing."""
+    from . import cint
     rule = 'C08.cache-wiring'
     fn = P.fn('Type_Instance')
-    g = P.cfg(fn)
     ctx.fn(fn)
-    selfp, clsp = ('param', 0), ('param', 1)
-    N = util.Norm(P, fn, inline=False)
-    cache_num = None
-    # CELLO_CACHE_NUM: number of leading NULL cache words in a static object (from the witness type), or 0 without cache
-    entries = []
-    for n in g.live():
-        if n['kind'] != 'cond':
-            continue
-        c = N.canon(n['expr'])
-        if c[0] == 'bin' and c[1] == '==' and clsp in (c[2], c[3]):
-            lit = c[3] if c[2] == clsp else c[2]
-            if lit[0] == 'global':
-                entries.append((n, lit[1]))
     hw = len(P.records['Header']['fields'])
     wt = P.types.get('WObj')
     cache_num = None
@@ -35,55 +27,90 @@ def check_cache(P, ctx):
     if cache_num is None:
         ctx.undecided(rule, 'layout', 'include/Cello.h', 'cannot locate the cache words of a static object')
         return None
-    seen_idx, seen_cls = {}, {}
-    for (cn, lit) in entries:
-        tb = succ_of(cn, True)
-        sub = g.reach_from(tb, cut_nodes=[succ_of(cn, False)] if succ_of(cn, False) is not None else [])
-        reads, writes, scans, rets = [], [], [], []
-        for i in sub:
-            n = g.nodes[i]
-            if n['expr'] is None and n['kind'] != 'ret':
-                continue
-            if n['kind'] == 'ret':
-                rets.append(n)
-            for ev in (util.expr_events(n['expr'], n) if n['expr'] is not None else []):
-                if ev['t'] == 'write':
-                    l = N.canon(ev['lhs'])
-                    if l[0] == 'idx' and l[1] == selfp:
-                        writes.append((util.const_int(l[2]), N.canon(ev['rhs'])))
-                    elif l[0] == 'local' and ev['rhs'] is not None:
-                        r = N.canon(ev['rhs'])
-                        if r[0] == 'idx' and r[1] == selfp:
-                            reads.append(util.const_int(r[2]))
-                elif ev['t'] == 'call' and ev['name'] == 'Type_Scan':
-                    scans.append([N.canon(a) for a in ev['args']])
-        key = 'entry:' + lit
-        ok = len(reads) == 1 and len(writes) == 1 and len(scans) == 1 and len(rets) == 1 and reads[0] == writes[0][0] and \
-            scans[0] == [selfp, ('global', lit)] and reads[0] is not None and 0 <= reads[0] < cache_num
-        if ok:
-            # the slot is filled with the scan result and that is what is returned; the scan happens only when the slot is empty
-            v = N.canon(rets[0]['expr'])
-            ok = v[0] == 'local' and writes[0][1] == v
-            nullc = [g.nodes[i] for i in sub if g.nodes[i]['kind'] == 'cond']
-            ok = ok and len(nullc) == 1 and N.canon(nullc[0]['expr']) == ir.canon(('bin', '==', v, ('int', 0)))
-        ctx.check(ok, rule, key, site(fn, cn['line']),
-                  'the cache entry for class %s reads and fills one slot index below CELLO_CACHE_NUM with Type_Scan(self, %s) and returns it' % (lit, lit),
-                  ['slot read %s, slot written %s, scan args %s' % (reads, [w[0] for w in writes], [[ir.fmt(a) for a in s] for s in scans])])
-        if reads:
-            seen_idx.setdefault(reads[0], []).append(lit)
-        seen_cls.setdefault(lit, []).append(reads[0] if reads else None)
-    dup_i = {i: c for i, c in seen_idx.items() if len(c) > 1}
-    dup_c = {c: i for c, i in seen_cls.items() if len(i) > 1}
-    ctx.check(not dup_i and not dup_c, rule, 'distinct', site(fn), 'no two classes share a cache slot and no class has two slots',
-              ['shared slots: %s' % dup_i, 'repeated classes: %s' % dup_c])
-    ctx.check(len(entries) * 3 <= cache_num * 3 and (len(entries) == cache_num or cache_num == 0), rule, 'count', site(fn),
-              'the number of cache entries (%d) equals the number of cache words a type record reserves (%d)' % (len(entries), cache_num))
-    # fall-through is the full scan with the queried class
-    rets = [n for n in g.live() if n['kind'] == 'ret' and ir.top_nocast(n['expr'])[0] == 'call']
-    ok = len(rets) == 1 and ir.callee_name(ir.top_nocast(rets[0]['expr'])) == 'Type_Scan' and [N.canon(a) for a in ir.top_nocast(rets[0]['expr'])[2]] == [selfp, clsp]
-    if ok and entries:
-        ok = all(g.must_pass(rets[0]['id'], through_edges=[(cn['id'], False)]) for cn, _ in entries)
-    ctx.check(ok, rule, 'fall-through', site(fn), 'a class without a cache entry is answered by Type_Scan(self, cls)')
+    names = sorted({x[1] for e, _ in ir.all_exprs(fn['body']) for x in ir.walk(e) if x[0] == 'global' and x[1] not in ('NULL', 'Terminal')})
+    TOK = {c: 8000 + k for k, c in enumerate(names)}
+    TOK['(a class without an entry)'] = 8999
+    SCANV = {t: 9000 + (t - 8000) for t in TOK.values()}
+    BASE = 300000
+    NW = max(cache_num, 0) + 12
+
+    def run(cls_tok, words):
+        mem = dict(words)
+        writes = []
+        scans = []
+
+        def rd(a, it):
+            if not (BASE <= a < BASE + 8 * NW) or (a - BASE) % 8:
+                raise cint.NoEval('read outside the head of the type record')
+            return mem.get(a, 0)
+
+        def wr(a, v, w, it):
+            if not (BASE <= a < BASE + 8 * NW) or (a - BASE) % 8:
+                raise cint.NoEval('write outside the head of the type record')
+            mem[a] = v
+            writes.append(((a - BASE) // 8, v))
+
+        def call(nm, e, it):
+            if nm == 'Type_Scan':
+                c = it.ev(e[2][1])
+                scans.append((it.ev(e[2][0]), c))
+                return SCANV.get(c, 1)
+            raise cint.NoEval('call %s' % nm)
+        atoms = {('global', 'NULL'): 0}
+        for c, t in TOK.items():
+            atoms[('global', c)] = t
+        it = cint.CInt(P, fn, atoms=atoms, call=call, mem=rd, memw=wr, recurse=True, max_steps=4000)
+        r = it.run([BASE, cls_tok])
+        return r, writes, scans
+    slot = {}
+    verdict = {}
+    unsup = None
+    for c, t in TOK.items():
+        r, writes, scans = run(t, {})
+        if r[0] == 'stuck':
+            unsup = unsup or '%s: %s' % (c, r[1])
+            continue
+        msg = None
+        if not (r[0] == 'ret' and r[1] == SCANV[t]):
+            msg = 'empty cache: answers %s, the scan answers %s' % (r[1], SCANV[t])
+        elif any(s_ != (BASE, t) for s_ in scans):
+            msg = 'the scan is asked about %s' % (scans,)
+        elif len(writes) > 1 or any(not (0 <= i < cache_num) or v != SCANV[t] for i, v in writes):
+            msg = 'empty cache: writes %s (word index, value); the record reserves %d cache words and the answer is %s' % (writes, cache_num, SCANV[t])
+        if writes and not msg:
+            slot[c] = writes[0][0]
+        verdict[c] = msg
+    full = {BASE + 8 * i: SCANV[TOK[c]] for c, i in slot.items()}
+    for c, t in TOK.items():
+        if verdict.get(c) or c not in verdict:
+            continue
+        for label, words in (('every cached class filled in', full), ('every other cached class filled in', {a: v for a, v in full.items() if c not in slot or a != BASE + 8 * slot[c]})):
+            r, writes, scans = run(t, words)
+            if r[0] == 'stuck':
+                unsup = unsup or '%s: %s' % (c, r[1])
+            elif not (r[0] == 'ret' and r[1] == SCANV[t]):
+                verdict[c] = verdict[c] or '%s: answers %s, the scan answers %s' % (label, r[1], SCANV[t])
+            elif any(v != SCANV[t] or not 0 <= i < cache_num for i, v in writes):
+                verdict[c] = verdict[c] or '%s: writes %s' % (label, writes)
+    if unsup and not any(verdict.values()):
+        ctx.undecided(rule, 'evaluation', site(fn), 'Type_Instance leaves the evaluated fragment: ' + unsup)
+        return cache_num
+    cached = [c for c in names if c in slot]
+    for c in names:
+        if c not in slot and not verdict.get(c):
+            continue           # a global the function mentions that is not a cached class (answered by the scan; covered by fall-through)
+        ctx.check(not verdict.get(c), rule, 'entry:' + c, site(fn),
+                  'the cache entry for class %s reads and fills one slot index below CELLO_CACHE_NUM with Type_Scan(self, %s) and returns it (empty, full and partly filled cache evaluated)' % (c, c),
+                  [verdict[c]] if verdict.get(c) else None)
+    dup = {}
+    for c, i in slot.items():
+        dup.setdefault(i, []).append(c)
+    dup = {i: cs for i, cs in dup.items() if len(cs) > 1}
+    ctx.check(not dup, rule, 'distinct', site(fn), 'no two classes share a cache slot', ['shared slots: %s' % dup] if dup else None)
+    ctx.check(len(cached) <= cache_num, rule, 'count', site(fn), 'the cache entries (%d) fit the cache words a type record reserves (%d)' % (len(cached), cache_num))
+    other = '(a class without an entry)'
+    ctx.check(not verdict.get(other) and other not in slot, rule, 'fall-through', site(fn), 'a class without a cache entry is answered by Type_Scan(self, cls) and leaves the record alone',
+              [verdict.get(other) or 'writes cache word %s' % slot.get(other)] if (verdict.get(other) or other in slot) else None)
     ctx.floor(rule, 3 + (18 if cache_num else 0))
     return cache_num
 
